@@ -325,6 +325,8 @@ def text_mutations(g, m):
     if m['kind'] != 'pair':
         out.append(('species_nonnumeric', t + '[Species]\n%s.atomic_mass : heavy\n' % m['els'][0]))
         out.append(('species_key_without_property', t + '[Species]\n%s : 12.0\n' % m['els'][0]))
+        out.append(('species_key_empty_property', t + '[Species]\n%s. : 12.0\n' % m['els'][0]))                 # fix a2c736d
+        out.append(('species_key_empty_species', t + '[Species]\n.atomic_mass : 12.0\n'))
         out.append(('unknown_species', t.replace(m['els'][0], 'Qq') if m['target'] in ('setfl', 'setfl_fs', 'eam_adp') else None))
     if m.get('custom'):
         n = sorted(m['custom'])[0]
